@@ -69,6 +69,12 @@ def cases(draw):
     # a stretch of hours delivered a second time with other values, appended after the original rows (the frame is then not in time
     # order); the first delivery counts
     c["redelivered"] = draw(st.one_of(st.none(), st.none(), st.tuples(st.integers(0, nh - 1), st.integers(5, 300))))
+    if draw(st.integers(0, 5)) == 0:
+        # an otherwise perfect frame - whole local days, every temperature and usage reading present - whose only gaps are in the
+        # irradiance column
+        c.update({"aim": "none", "start_h": 24 * draw(st.integers(0, 400)), "extra_h": 0, "ghi": True, "nan_cells": [], "absent": [], "dups": [], "zeros": [],
+                  "odd": [], "empty_col": None, "redelivered": None, "whole_days_only_ghi_gaps": True,
+                  "nan_blocks": [(i, l, 2) for i, l, _ in draw(st.lists(st.tuples(st.integers(0, nh - 1), st.integers(1, 60), st.just(2)), min_size=1, max_size=3))]})
     return c
 
 
@@ -80,6 +86,12 @@ def build(c):
         idx = pd.date_range(start, periods=nh, freq="h").tz_convert(tz)
         if idx[0].minute:  # :30/:45 zones: put the stamps on the local hour
             idx = idx - pd.Timedelta(minutes=int(idx[0].minute))
+        if c.get("whole_days_only_ghi_gaps"):
+            # from the first local midnight on, whole local days
+            first = int(np.nonzero(idx.hour.values == 0)[0][0])
+            idx = idx[first:]
+            last = int(np.nonzero(idx.hour.values == 23)[0][-1])
+            idx = idx[: last + 1]
     else:
         day = pd.Timestamp(c["dst"])
         day_start = day.tz_localize(tz, nonexistent="shift_forward", ambiguous=True).tz_convert("UTC")
@@ -221,9 +233,9 @@ def judge(c, rec):
         if o[col].isna().any() and len(sup) > 0:
             rec.violation("nan-left/" + col, c, "%d NaN left in %s although %d values were supplied" % (int(o[col].isna().sum()), col, len(sup)))
         filled_any = filled_any or bool(expflag.any())
-    holes = bool(c["dups"]) or bool(c.get("redelivered")) or len(exp) > len(src)
+    holes = bool(c["dups"]) or bool(c.get("redelivered")) or bool(c.get("whole_days_only_ghi_gaps")) or len(exp) > len(src)
     rec.case(c, bool(filled_any and holes), tags + ["dups=%d" % bool(c["dups"]), "elec=%d" % c["elec"], "ghi=%d" % c["ghi"],
-                                                     "redelivered-block=%d" % bool(c.get("redelivered")), "negative-night-ghi=%d" % bool(c["ghi"] and c.get("ghi_night_offset"))])
+                                                     "redelivered-block=%d" % bool(c.get("redelivered")), "only-ghi-gaps=%d" % bool(c.get("whole_days_only_ghi_gaps")), "negative-night-ghi=%d" % bool(c["ghi"] and c.get("ghi_night_offset"))])
 
 
 def shards(tier, seed):
